@@ -450,6 +450,108 @@ func vMutate(r *vrng, base []byte) ([]byte, string) {
 	}
 }
 
+// vExtStart: offset at which the extension data of a valid encoding starts =
+// the shortest prefix that still decodes (every fixed field fails on
+// truncation); -1 when the type has no extension data.
+func vExtStart(b []byte) int {
+	m, err, pan, _ := vRead(b)
+	if err != nil || pan != "" || !vHasExtra(m) {
+		return -1
+	}
+	for k := 2; k <= len(b); k++ {
+		if _, err, pan, _ := vRead(b[:k]); err == nil && pan == "" {
+			return k
+		}
+	}
+	return -1
+}
+
+// compressed generator point of secp256k1 (a valid public key / nonce half)
+var vPointG = []byte{0x02, 0x79, 0xbe, 0x66, 0x7e, 0xf9, 0xdc, 0xbb, 0xac, 0x55, 0xa0, 0x62,
+	0x95, 0xce, 0x87, 0x0b, 0x07, 0x02, 0x9b, 0xfc, 0xdb, 0x2d, 0xce, 0x28, 0xd9, 0x59, 0xf2,
+	0x81, 0x5b, 0x16, 0xf8, 0x17, 0x98}
+
+// vCraftExt builds a TLV stream over the record types the lnwire messages
+// know (0..8, 22, 55555, 65536) plus unknown ones, with plausible and
+// implausible lengths, valid and invalid curve points, scalars above the group
+// order, feature vectors with leading zero bytes; mostly canonical order, with
+// occasional duplicates / disorder / truncation.
+func vCraftExt(r *vrng) []byte {
+	types := []uint64{0, 1, 2, 3, 4, 5, 6, 7, 8, 22, 253, 55555, 65535, 65536, 65537, 1<<32 - 3}
+	plaus := map[uint64][]int{0: {0, 22, 33, 34, 66}, 1: {0, 1, 2, 3, 8}, 2: {4, 66, 98}, 4: {4, 66},
+		6: {32}, 8: {66}, 22: {0, 98, 196}, 55555: {8}, 65536: {4}}
+	anyLen := []int{0, 1, 2, 3, 4, 7, 8, 9, 31, 32, 33, 34, 65, 66, 67, 97, 98, 99}
+	p := 30 + r.intn(40)
+	var out []byte
+	var last []byte
+	for _, t := range types {
+		if r.intn(100) >= p {
+			continue
+		}
+		n := anyLen[r.intn(len(anyLen))]
+		if pl, ok := plaus[t]; ok && r.intn(4) != 0 {
+			n = pl[r.intn(len(pl))]
+		}
+		v := r.bytes(n)
+		switch r.intn(6) {
+		case 0: // curve points wherever they fit
+			for o := n % 33; o+33 <= n; o += 33 {
+				copy(v[o:], vPointG)
+				if r.intn(3) == 0 {
+					v[o] = 3
+				}
+			}
+			if n == 98 {
+				copy(v[32:], vPointG)
+				copy(v[65:], vPointG)
+			}
+		case 1: // leading zero bytes / small values
+			for i := 0; i < n && i < 1+r.intn(3); i++ {
+				v[i] = 0
+			}
+		case 2: // scalar >= group order
+			for i := 0; i < n && i < 32; i++ {
+				v[i] = 0xff
+			}
+			if n == 98 {
+				copy(v[32:], vPointG)
+				copy(v[65:], vPointG)
+			}
+		}
+		var rec []byte
+		rec = append(rec, vBigSize(t)...)
+		rec = append(rec, vBigSize(uint64(n))...)
+		rec = append(rec, v...)
+		out = append(out, rec...)
+		last = rec
+	}
+	switch r.intn(14) {
+	case 0:
+		out = append(out, last...) // duplicate type
+	case 1:
+		if len(out) > 0 {
+			out = out[:r.intn(len(out))] // truncated
+		}
+	case 2:
+		out = append(last, out...) // disorder
+	}
+	return out
+}
+
+func vBigSize(x uint64) []byte {
+	switch {
+	case x < 0xfd:
+		return []byte{byte(x)}
+	case x <= 0xffff:
+		return []byte{0xfd, byte(x >> 8), byte(x)}
+	case x <= 0xffffffff:
+		return []byte{0xfe, byte(x >> 24), byte(x >> 16), byte(x >> 8), byte(x)}
+	}
+	b := []byte{0xff, 0, 0, 0, 0, 0, 0, 0, 0}
+	binary.BigEndian.PutUint64(b[1:], x)
+	return b
+}
+
 func vTypes() []MessageType {
 	var ts []MessageType
 	for t := MessageType(0); t < MsgEnd; t++ {
@@ -560,6 +662,20 @@ func TestVerifWire(t *testing.T) {
 				"append-unknown-tlv", b))
 		}
 		out.emit(vCheckBytes(mt, tb[:], "empty-body", nil))
+		// crafted TLV extensions behind the fixed fields of a valid encoding
+		if k := vExtStart(bases[0]); k > 0 {
+			ncraft := vCases(36, 800)
+			for i := 0; i < ncraft; i++ {
+				rr := r.fork(uint64(500000 + i))
+				base := bases[rr.intn(len(bases))]
+				kk := vExtStart(base)
+				if kk < 0 {
+					continue
+				}
+				b := append(append([]byte{}, base[:kk]...), vCraftExt(rr)...)
+				out.emit(vCheckBytes(mt, b, "tlv-craft", nil))
+			}
+		}
 		for i := 0; i < nmut; i++ {
 			rr := r.fork(uint64(1000 + i))
 			base := bases[rr.intn(len(bases))]
